@@ -792,7 +792,12 @@ pub async fn start_v5_server(cfg: &EpCfg) -> Conn {
                 v5::ProtocolMessage::Disconnect(_) => ("disconnect", 0),
                 v5::ProtocolMessage::Ping(_) => ("ping", 0),
             };
-            let (o, mut guard) = gated_proto(&log, &pg, kind, pid).await;
+            let kind = match &msg {
+                v5::ProtocolMessage::Subscribe(m) => format!("sub:{}", m.packet().topic_filters.first().map(|f| f.0.to_string()).unwrap_or_default()),
+                v5::ProtocolMessage::Unsubscribe(m) => format!("unsub:{}", m.packet().topic_filters.first().map(|f| f.to_string()).unwrap_or_default()),
+                _ => kind.to_string(),
+            };
+            let (o, mut guard) = gated_proto(&log, &pg, &kind, pid).await;
             guard.finish();
             log.push(Rec::PExit { k: guard.k });
             match o {
@@ -957,7 +962,13 @@ pub async fn start_v3_server(cfg: &EpCfg) -> Conn {
                 v3::ProtocolMessage::Disconnect(_) => ("disconnect", 0),
                 v3::ProtocolMessage::Ping(_) => ("ping", 0),
             };
-            let (o, mut guard) = gated_proto(&log, &pg, kind, pid).await;
+            let mut msg = msg;
+            let kind = match &mut msg {
+                v3::ProtocolMessage::Subscribe(m) => format!("sub:{}", m.iter_mut().next().map(|s| s.topic().to_string()).unwrap_or_default()),
+                v3::ProtocolMessage::Unsubscribe(m) => format!("unsub:{}", m.iter().next().map(|s| s.to_string()).unwrap_or_default()),
+                _ => kind.to_string(),
+            };
+            let (o, mut guard) = gated_proto(&log, &pg, &kind, pid).await;
             guard.finish();
             log.push(Rec::PExit { k: guard.k });
             match o {
